@@ -77,6 +77,7 @@ def decide(prop: str, tier: str, seed: int, replay: str | None) -> int:
     broken: list[str] = []  # proof obligations / ties that no longer check
     build_log = ""
     audit_res = {"theorems": {}, "forbidden": []}
+    leanchecker_res = None
     try:
         # 1. translators: regenerate Gen/*.lean from /repo's working tree
         for tr in getattr(mod, "TRANSLATORS", []):
@@ -102,6 +103,20 @@ def decide(prop: str, tier: str, seed: int, replay: str | None) -> int:
                     broken.append(f"theorem {n}: axioms={r.get('axioms')} {r.get('error','')}")
             for h in audit_res["forbidden"]:
                 broken.append(f"forbidden construct: {h}")
+        # 3b. thorough tier: independent re-check of the compiled modules (Lean's leanchecker replays
+        #     every declaration of the property's project-local modules through the kernel again)
+        leanchecker_res = None
+        if ok and tier == "thorough" and not replay:
+            mods = [str(f.relative_to(common.LEAN))[:-5].replace("/", ".") for f in common.lean_sources_for(list(mod.LEAN_TARGETS))
+                    if ".Driver." not in str(f).replace("/", ".")]
+            t1 = time.time()
+            try:
+                p = subprocess.run(["lake", "env", "leanchecker"] + sorted(mods), cwd=common.LEAN, capture_output=True, text=True, timeout=3000)
+                leanchecker_res = {"modules": len(mods), "ok": p.returncode == 0, "wall_s": round(time.time() - t1, 1)}
+                if p.returncode != 0:
+                    broken.append("leanchecker rejects the compiled modules: " + (p.stdout + p.stderr)[-400:])
+            except subprocess.TimeoutExpired:
+                leanchecker_res = {"modules": len(mods), "ok": None, "wall_s": round(time.time() - t1, 1), "note": "timed out (not counted as a failure)"}
         # 4. correspondence + oracle (or a single replayed case)
         if replay:
             case = json.loads(Path(replay).read_text())
@@ -199,6 +214,7 @@ def decide(prop: str, tier: str, seed: int, replay: str | None) -> int:
             "model_impl_disagreements": len(out.mismatches),
             "known_findings_hit": {kid: n for kid, (k, n) in seen_known.items()},
             "notes": out.notes,
+            "leanchecker": leanchecker_res,
         },
         "assumptions": list(getattr(mod, "ASSUMPTIONS", [])),
         "wall_s": round(time.time() - t0, 2),
